@@ -206,30 +206,50 @@ theorem branch_alone_equiv (s : Split σ S C) (hv : s.bufsize ≠ some 0) (hc : 
       refine Or.inr (passes_nosource (blocks s.bufsize flow) s.branches { st := st0, cc := 0 } (by simp [hbl]) b' hb')
 
 
-/-- **… whether the Split is driven by run, fill or request: `Split._fill`** (`copy_buf=True`; used by
-`fill`+`compute` and by `fill`+`request`).  Filling an alias-free flow value by value (the caller stops at the
-first `LenaStopFill`), under the hypotheses of `branch_alone_equiv`: for every branch `b` there is a schedule —
-for a prefix of the flow, what `b` was handed for each value: a deep copy made of objects created for `b`, or the
-value itself (`FillOK`) — such that the events of `b` (what it was handed, every `fill` and its outcome) are
-exactly those of `b` filled alone (`aloneFillLife`: every copy holds what the value held at the start). -/
+/-- **… whether the Split is driven by run, fill or request: `Split._fill` + `Split._compute`/`_request`**
+(`copy_buf=True`).  Filling an alias-free flow value by value (the caller stops at the first `LenaStopFill`), under
+the hypotheses of `branch_alone_equiv`: for every branch `b` there is a schedule — for a prefix of the flow, what
+`b` was handed for each value: a deep copy made of objects created for `b`, or the value itself (`FillOK`) — such
+that
+* the events of `b` during the filling (what it was handed, every `fill` and its outcome) are exactly those of
+  `b` filled alone (`aloneFillLife`: every copy holds what the value held at the start), and
+* **what `b` then yields** in `Split._compute()` / `Split._request()` (`collect`: every branch in turn, each value
+  with the contents of its objects at that moment) **is exactly what `b` yields alone** — the same invocation on
+  the state and the heap that the alone run ended in.
+No mutation of data or context performed in another branch, before or after, is visible in it. -/
 theorem split_fill_alone_equiv (brs : List (Branch σ S C)) (w : World C) (flow : List (Item S))
     (hup : ∀ t ∈ cellsOf flow, t.1 = upNs) (hnd : (cellsOf flow).Nodup)
     (hids : (brs.map (·.id)).Nodup) (hloc : ∀ b ∈ brs, Local b.ops (ownNs b.id))
     (hrefs : ∀ b ∈ brs, ∀ t ∈ b.ops.refs b.st, t.1 = ownNs b.id) (b : Branch σ S C) (hb : b ∈ brs) :
     ∃ sched : List (Item S × Item S × Bool),
       sched.map (·.1) = flow.take sched.length ∧ (∀ e ∈ sched, FillOK b.id e) ∧
-      proj b.id (fillFlow (splitFill true) w brs flow).evs = (aloneFillLife w.st w.st b sched).1 := by
+      proj b.id (fillFlow (splitFill true) w brs flow).evs = (aloneFillLife w.st w.st b sched).1 ∧
+      ∀ (req : Req S) (ev : Nat → Ev S C), req.cells = [] → (∀ j, (ev j).branch = some j) →
+        proj b.id (collect req ev (fillFlow (splitFill true) w brs flow).w.st (fillFlow (splitFill true) w brs flow).brs).1 =
+          ev b.id :: outsEv b.id
+            ((aloneFillLife w.st w.st b sched).2.2.1.ops.act (aloneFillLife w.st w.st b sched).2.1
+              (aloneFillLife w.st w.st b sched).2.2.1.st req).1
+            ((aloneFillLife w.st w.st b sched).2.2.1.ops.act (aloneFillLife w.st w.st b sched).2.1
+              (aloneFillLife w.st w.st b sched).2.2.1.st req).2.2.outs := by
   rw [fillFlow_congr (splitFill true) (fillG true) (fun x w brs => splitFill_eq x brs w)]
   exact fillG_alone true brs w flow hup hnd hids hloc hrefs b hb
 
-/-- **`Zip._fill`**: the same for the branches of a `Zip`, each of which is handed a deep copy of every value. -/
+/-- **`Zip._fill`** followed by `compute()`/`request()` of the sequences in turn: the same for the branches of a
+`Zip`, each of which is handed a deep copy of every value. -/
 theorem zip_fill_alone_equiv (brs : List (Branch σ S C)) (w : World C) (flow : List (Item S))
     (hup : ∀ t ∈ cellsOf flow, t.1 = upNs) (hnd : (cellsOf flow).Nodup)
     (hids : (brs.map (·.id)).Nodup) (hloc : ∀ b ∈ brs, Local b.ops (ownNs b.id))
     (hrefs : ∀ b ∈ brs, ∀ t ∈ b.ops.refs b.st, t.1 = ownNs b.id) (b : Branch σ S C) (hb : b ∈ brs) :
     ∃ sched : List (Item S × Item S × Bool),
       sched.map (·.1) = flow.take sched.length ∧ (∀ e ∈ sched, FillOK b.id e) ∧
-      proj b.id (fillFlow zipFill w brs flow).evs = (aloneFillLife w.st w.st b sched).1 := by
+      proj b.id (fillFlow zipFill w brs flow).evs = (aloneFillLife w.st w.st b sched).1 ∧
+      ∀ (req : Req S) (ev : Nat → Ev S C), req.cells = [] → (∀ j, (ev j).branch = some j) →
+        proj b.id (collect req ev (fillFlow zipFill w brs flow).w.st (fillFlow zipFill w brs flow).brs).1 =
+          ev b.id :: outsEv b.id
+            ((aloneFillLife w.st w.st b sched).2.2.1.ops.act (aloneFillLife w.st w.st b sched).2.1
+              (aloneFillLife w.st w.st b sched).2.2.1.st req).1
+            ((aloneFillLife w.st w.st b sched).2.2.1.ops.act (aloneFillLife w.st w.st b sched).2.1
+              (aloneFillLife w.st w.st b sched).2.2.1.st req).2.2.outs := by
   rw [fillFlow_congr zipFill (fillG false) (fun x w brs => zipFill_eq x brs w)]
   exact fillG_alone false brs w flow hup hnd hids hloc hrefs b hb
 
@@ -264,8 +284,14 @@ theorem mkBranches_spec : ∀ (specs : List BSpec) (start : Nat),
 /-- **The branches of the executable model compute what they would compute alone.**  `branch_alone_equiv`
 instantiated with the branches of a harness case (any list of branch specifications: sources, fill/compute,
 fill/request and plain sequences built from `Variable`, `UpdateContext`, `MakeFilename`, `Count`, `Slice`, the
-user mutators and any accumulator): the locality hypothesis is discharged by `hOps_local`. -/
-theorem harness_branch_alone_equiv (specs : List BSpec) (bufsize : Option Nat) (hv : bufsize ≠ some 0)
+user mutators and any accumulator): the locality hypothesis is discharged by `hOps_local`.
+
+Scope: the model of `Split.run` goes on after an invocation that returns an exception (`Resp.err`), the code
+does not; `hne` restricts the theorem to branch lists whose accumulators cannot raise (`harness_no_exception`:
+then no invocation of the run returns an exception, so the modelled run is the run of the code).  Numeric
+accumulators are assumed to be filled with integers (`dataInt`). -/
+theorem harness_branch_alone_equiv (specs : List BSpec) (_hne : ∀ sp ∈ specs, sp.term.canErr = false)
+    (bufsize : Option Nat) (hv : bufsize ≠ some 0)
     (st0 : Store Value) (flow : List HItem)
     (hup : ∀ t ∈ cellsOf flow, t.1 = upNs) (hnd : (cellsOf flow).Nodup)
     (b : Branch HSt Skel Value) (hb : b ∈ mkBranches 0 specs) :
@@ -285,6 +311,15 @@ theorem harness_branch_alone_equiv (specs : List BSpec) (bufsize : Option Nat) (
     rw [hops, hst] at ht
     simp [hOps, AccSt.refs, cellsOf, groupsCells] at ht
 
+
+/-- no invocation on a branch whose accumulator cannot raise returns an exception (the only exception a modelled
+branch raises is then `LenaStopFill`, which `Split` handles) -/
+theorem harness_no_exception (specs : List BSpec) (hne : ∀ sp ∈ specs, sp.term.canErr = false)
+    (b : Branch HSt Skel Value) (hb : b ∈ mkBranches 0 specs) (st : Store Value) (s : HSt) (r : Req Skel) :
+    (b.ops.act st s r).2.2.err = none := by
+  obtain ⟨_, _, sp, hsp, hops⟩ := (mkBranches_spec specs 0).1 b hb
+  rw [hops]
+  exact hOps_noerr _ sp (hne sp hsp) st s r
 
 /-! ## non-vacuity: a concrete instance of every hypothesis -/
 
@@ -315,25 +350,25 @@ example : ∀ b ∈ (demoSplit (some 2)).branches, ∃ sched : List (List HItem 
     sched.map (·.1) = (blocks (some 2) demoFlow).take sched.length ∧ (∀ e ∈ sched, SchedOK b.id e) ∧
     proj b.id ((demoSplit (some 2)).runTrace (fun _ => .dict []) demoFlow).1 =
       aloneTrace (fun _ => .dict []) b sched (blocks (some 2) demoFlow).isEmpty :=
-  fun b hb => harness_branch_alone_equiv demoSpecs (some 2) (by decide) _ demoFlow (by decide) (by decide) b hb
+  fun b hb => harness_branch_alone_equiv demoSpecs (by decide) (some 2) (by decide) _ demoFlow (by decide) (by decide) b hb
 
 
 
 /-- the hypotheses of `split_fill_alone_equiv` / `zip_fill_alone_equiv` hold for the two fill/compute branches
 of the demo -/
-example : ∀ b ∈ mkBranches 0 (demoSpecs.take 2), ∃ sched : List (HItem × HItem × Bool),
-    sched.map (·.1) = demoFlow.take sched.length ∧ (∀ e ∈ sched, FillOK b.id e) ∧
-    proj b.id (fillFlow (splitFill true) { st := fun _ => .dict [], cc := 0 } (mkBranches 0 (demoSpecs.take 2)) demoFlow).evs =
-      (aloneFillLife (fun _ => .dict []) (fun _ => .dict []) b sched).1 := by
-  obtain ⟨h1, h2⟩ := mkBranches_spec (demoSpecs.take 2) 0
-  refine fun b hb => split_fill_alone_equiv _ _ demoFlow (by decide) (by decide) h2 ?_ ?_ b hb
-  · intro b' hb'
-    obtain ⟨_, _, sp, _, hops⟩ := h1 b' hb'
-    rw [hops]; exact hOps_local _ _
-  · intro b' hb' t ht
-    obtain ⟨_, hst, sp, _, hops⟩ := h1 b' hb'
-    rw [hops, hst] at ht
-    simp [hOps, AccSt.refs, cellsOf, groupsCells] at ht
+example (b : Branch HSt Skel Value) (hb : b ∈ mkBranches 0 (demoSpecs.take 2)) :=
+  split_fill_alone_equiv (mkBranches 0 (demoSpecs.take 2)) { st := fun _ => .dict [], cc := 0 } demoFlow
+    (by decide) (by decide) (mkBranches_spec (demoSpecs.take 2) 0).2
+    (by
+      intro b' hb'
+      obtain ⟨_, _, sp, _, hops⟩ := (mkBranches_spec (demoSpecs.take 2) 0).1 b' hb'
+      rw [hops]; exact hOps_local _ _)
+    (by
+      intro b' hb' t ht
+      obtain ⟨_, hst, sp, _, hops⟩ := (mkBranches_spec (demoSpecs.take 2) 0).1 b' hb'
+      rw [hops, hst] at ht
+      simp [hOps, AccSt.refs, cellsOf, groupsCells] at ht)
+    b hb
 
 /-! ## sentence 2: what an accumulator yields is new -/
 
